@@ -559,6 +559,9 @@ def scenarios_c20(tier, seed):
         pfs = PF_VALUES if not quick else [0, 3, 4, 16, 48, 255, 1000]
         for pf in pfs:
             for rp in (False, True):
+                if rp and pf in (5, 6):
+                    continue          # a TLV area that is readable only in part: what a reader makes of the rolled-over
+                                      # bytes is C08's subject (any result but an exception), not a visibility promise
                 for imm in (False, True):
                     if quick and imm and pf not in (0, 4, 1000):
                         continue
@@ -570,6 +573,9 @@ def scenarios_c20(tier, seed):
                             dict(name="auth", pw=pw), dict(name="auth", pw=PW("kC", "kC")), dict(name="ndef")]
                     add(product, ops, "-protect-pf%d-%s%s" % (pf, "rp" if rp else "wp", "-imm" if imm else ""), imm=imm,
                         nak=rnd.choice(["timeout", "byte"]), init=dict(fmt=rnd.random() < 0.8, ro=rnd.random() < 0.25))
+        # the documented ValueError of a password that is too short, and nothing written
+        add(product, [dict(name="protect", pw=SHORT, rp=False, pf=0), dict(name="auth", pw=SHORT), dict(name="auth", pw=EMPTY),
+                      dict(name="ndef")], "-short-password")
         # a tag that is already protected: protect() by someone who is not authenticated / who is
         for rp in (False, True):
             for nak in ("timeout", "byte"):
